@@ -124,6 +124,11 @@ func c16units(c *h.Ctx, r *h.Rand) {
 		in := "jose.unb64 " + c16text(s)
 		out := h.Safe(func() string { return c16res(jose.VerifBase64URLDecode(s)) })
 		c.Eq("b64.dec", in, out, c.O.Call("jose.unb64", c16text(s)))
+		// leniency, exactly: a text over the alphabet that decodes re-encodes to its canonical form
+		if strings.HasPrefix(out, "ok") && strings.Trim(s, c16alphabet) == "" {
+			b, _ := jose.VerifBase64URLDecode(s)
+			c.Eq("b64.leniency_exact", in, c16text(jose.VerifBase64URLEncode(b)), c.O.Call("jose.canon", c16text(s)))
+		}
 		c.Case(bucket, in, true)
 	}
 	ext := c16alphabet + "=.\n\r +/"
@@ -318,7 +323,7 @@ func c16units(c *h.Ctx, r *h.Rand) {
 	lens := []int{0, 1, 3, 8, 11, 12, 13, 15, 16, 17, 24, 32}
 	keyLens := []int{0, 15, 16, 17, 24, 31, 32, 33, 47, 48, 49, 63, 64, 65}
 	pre := func(enc jose.ContentEncryption, kl, il, tl, cl int, bucket string) {
-		in := fmt.Sprintf("jose.precheck %s %d %d %d", enc, kl, il, tl)
+		in := fmt.Sprintf("jose.precheck %s %d %d %d %d", enc, kl, il, cl, tl)
 		out := h.Safe(func() string {
 			_, err := jose.VerifAEADDecrypt(enc, r.Bytes(kl), []byte("aad"), r.Bytes(il), r.Bytes(cl), r.Bytes(tl))
 			if err != nil {
@@ -326,7 +331,7 @@ func c16units(c *h.Ctx, r *h.Rand) {
 			}
 			return "ok"
 		})
-		model := c.O.Call("jose.precheck", string(enc), fmt.Sprint(kl), fmt.Sprint(il), fmt.Sprint(tl))
+		model := c.O.Call("jose.precheck", string(enc), fmt.Sprint(kl), fmt.Sprint(il), fmt.Sprint(cl), fmt.Sprint(tl))
 		if model == "ok " { // Open is entered with well-sized parameters: random bytes do not authenticate
 			model = "err"
 		}
@@ -346,12 +351,13 @@ func c16units(c *h.Ctx, r *h.Rand) {
 		}
 		for _, kl := range keyLens {
 			pre(enc, kl, r.Pick(12, 16), 16, 16, "precheck/key-lengths")
+			pre(enc, kl, r.Pick(12, 16), 16, r.Pick(0, 3, 7), "precheck/key-lengths")
 		}
 	}
 	for i := 0; i < c.N(300, 10000); i++ {
 		pre(encs[r.Intn(6)], keyLens[r.Intn(len(keyLens))], lens[r.Intn(len(lens))], lens[r.Intn(len(lens))], r.Intn(40), "precheck/random")
 	}
 	// the model of the code before the repair: a 3-byte GCM IV reaches Open's documented panic
-	c.Hold(c.O.Call("jose.precheck0", "A128GCM", "16", "3", "16") == "panic", "f15a.model_witness", "jose.precheck0 A128GCM 16 3 16", "model", "panic")
+	c.Hold(c.O.Call("jose.precheck0", "A128GCM", "16", "3", "3", "16") == "panic", "f15a.model_witness", "jose.precheck0 A128GCM 16 3 3 16", "model", "panic")
 	c.Hold(c.O.Call("jose.decres0", "-") == "err" && c.O.Call("jose.decres", "-") == "ok -", "f19.model_witness", "jose.decres0 -", "model", "err / ok -")
 }
